@@ -67,6 +67,18 @@ Theorem C01_iter_resume_exact_every_step : forall c, c_kind c = KIter -> 0 < c_W
 Proof. exact iter_resume_exact_I1. Qed.
 Print Assumptions C01_iter_resume_exact_every_step.
 
+(* ... and any finite CHAIN of checkpoint/resume (k1 batches, checkpoint + resume, k2 batches, checkpoint + resume, ...), every arrival
+   schedule throughout: the iterator built from a state dict is again a good state of the same family (invariant Good1: all five
+   invariants plus a snapshot that names the slot the remaining stream starts from, with exact worker entries), so the argument
+   iterates (SdlIterResume.v: start_good, step_good, resume_good, chain_good) *)
+Theorem C01_iter_resume_chain_every_step : forall c, c_kind c = KIter -> 0 < c_W c -> 0 < c_P c -> c_stateful c = true -> c_I c = 1 ->
+  forall ks sched, fold_right Nat.add 0 ks <= length (reference c) ->
+  let '(s, sched') := chain c ks (sdl_fresh c) sched in
+  let p := fold_right Nat.add 0 ks in
+  outcomes c (S (length (reference c) - p)) s sched' = map OBatch (skipn p (reference c)) ++ [OStop].
+Proof. exact iter_resume_chain_I1. Qed.
+Print Assumptions C01_iter_resume_chain_every_step.
+
 (* iterable datasets, ANY snapshot interval, the MAIN-process side of a resume, PROVED for every state dict d and EVERY arrival
    schedule of the resumed run: if the per-worker entries of d restore workers whose remaining answers are the batch lists B
    (workers_ok: queue empty, alive, future answers = B w from its first task on; one placeholder in front for the workers below
